@@ -327,3 +327,44 @@ func H08f() {
 	vAssert(r0 == r1, "C08.history.definition-verdict-independent-of-history")
 	vReached("end")
 }
+
+// H08g: history for state that travels with a recycled decoder rather than a
+// package-level variable. Stream B has no explicit timestamp: its first time
+// value is an activity's local_timestamp, then come compressed-timestamp
+// records. It is decoded in a fresh state, then after a model stream A (whose
+// records leave an arbitrary reference timestamp and offset behind), then
+// compared.
+func H08g() {
+	sA := vGenStream(vKindsParam(), true)
+	var body bytes.Buffer
+	body.Write([]byte{0x40, 0, 0, 0, 0, 2, 0, 1, 0x00, 1, 2, 0x84})
+	body.Write([]byte{0x00, 4, 1, 0})
+	body.Write([]byte{0x41, 0, 0, 34, 0, 1, 5, 4, 0x86}) // activity: local_timestamp only
+	body.Write([]byte{0x42, 0, 0, 20, 0, 1, 3, 1, 0x02}) // record: heart_rate only
+	body.Write([]byte{0x01, vByte(), vByte(), vByte(), 0x30})
+	body.Write([]byte{0x80 | 2<<5 | vByte()&0x1F, vByte()})
+	body.Write([]byte{0x80 | 2<<5 | vByte()&0x1F, vByte()})
+	hdr := make([]byte, 14)
+	vHeader14(hdr, uint32(body.Len()))
+	var out bytes.Buffer
+	out.Write(hdr)
+	out.Write(body.Bytes())
+	fc := dyncrc16.Checksum(out.Bytes())
+	out.Write([]byte{byte(fc), byte(fc >> 8)})
+	B := out.Bytes()
+	vResetAccumulators()
+	b0, e0 := Decode(bytes.NewReader(B))
+	_, _ = Decode(bytes.NewReader(sA.data))
+	_, _ = DecodeChained(bytes.NewReader(sA.data))
+	b1, e1 := Decode(bytes.NewReader(B))
+	vAssert(e0 == nil && e1 == nil && b0 != nil && b1 != nil, "C08.sequence.decodes")
+	if b0 != nil && b1 != nil {
+		vSameContent(b0, b1, 3, "C08.sequence.decode-independent-of-history")
+	}
+	chain, ce := DecodeChained(bytes.NewReader(append(append([]byte{}, sA.data...), B...)))
+	vAssert(ce == nil && len(chain) == 2, "C08.sequence.decodes")
+	if ce == nil && len(chain) == 2 && b0 != nil {
+		vSameContent(b0, chain[1], 3, "C08.sequence.decode-independent-of-history")
+	}
+	vReached("end")
+}
